@@ -258,6 +258,19 @@ func (b *BlockList) readBlocklists() error {
 			return nil
 		}
 		if !f.IsDir() {
+			if strings.HasPrefix(f.Name(), "local.tmp.") {
+				// The staging file of an interrupted persist(): a snapshot
+				// that never replaced <dir>/local. Loading it would bring
+				// back entries of a list that was never committed, and
+				// resurrect, at every restart, whatever is removed later.
+				// saveMu keeps this from racing a persist in flight, whose
+				// staging file has the same name shape until it is renamed.
+				b.saveMu.Lock()
+				_ = os.Remove(path) //nolint:gosec // G122 - own staging file in the configured directory
+				b.saveMu.Unlock()
+				return nil
+			}
+
 			file, err := os.Open(path) //nolint:gosec // G304 - path from walk, not user input
 			if err != nil {
 				return fmt.Errorf("error opening file: %w", err)
